@@ -395,6 +395,7 @@ struct Exec
 		double fmin = INFINITY, fmax = -INFINITY;	// over all samples
 		double scale = 0;
 		double term_scale = 0;	// 20*|prefactor|*max|y| over the knots of all segments touched
+		double grid_slack = 0;	// value resolution at an interior extremum of a zone piece due to the spacing of representable abscissae
 		std::vector<double> attain;	  // values at a, b and knots inside
 		bool zone = false;
 	};
@@ -505,7 +506,33 @@ struct Exec
 							else
 								hi = m2;
 						}
-						sample(0.5 * (lo + hi) < l ? l : std::min(0.5 * (lo + hi), rr), true);
+						// The search ends between two adjacent doubles; when the table sits far from the origin the representable
+						// abscissae are so coarse that neighbouring grid points differ visibly in value, so look at the grid
+						// neighbourhood of the end point and keep the best representable one.
+						double xm = std::min(std::max(0.5 * (lo + hi), l), rr), xb = xm, vb = F.Interpolate(xm);
+						for(int dir = -1; dir <= 1; dir += 2)
+						{
+							double x = xm;
+							for(int step = 0; step < 6; step++)
+							{
+								x = std::nextafter(x, dir > 0 ? INFINITY : -INFINITY);
+								if(x < l || x > rr)
+									break;
+								double v = F.Interpolate(x);
+								if(want_max ? v > vb : v < vb)
+									vb = v, xb = x;
+							}
+						}
+						sample(xb, true);
+						// how much the value changes between neighbouring representable abscissae at the extremum: neither the
+						// library nor this reference can resolve the extremum of the real curve better than that
+						double xp = std::nextafter(xb, INFINITY), xn = std::nextafter(xb, -INFINITY);
+						double dv = 0;
+						if(xp <= rr)
+							dv = std::max(dv, std::fabs(F.Interpolate(xp) - vb));
+						if(xn >= l)
+							dv = std::max(dv, std::fabs(F.Interpolate(xn) - vb));
+						r.grid_slack = std::max(r.grid_slack, 4.0 * dv);
 					}
 				}
 			}
@@ -520,14 +547,14 @@ struct Exec
 		double sc	= std::max(std::max(r.scale, std::fabs(got)), r.term_scale);
 		double allow = 8.0;   // (attainment in the zone: ternary search resolves the value to a few ulp of the scale)
 		// bound: no evaluation falls outside
-		double excess_ulps = is_min ? (r.fmin < got ? ulps(r.fmin, got, sc) : 0.0) : (r.fmax > got ? ulps(r.fmax, got, sc) : 0.0);
+		double excess_ulps = is_min ? (r.fmin < got - r.grid_slack ? ulps(r.fmin, got - r.grid_slack, sc) : 0.0) : (r.fmax > got + r.grid_slack ? ulps(r.fmax, got + r.grid_slack, sc) : 0.0);
 		ctx.metric_max(M_EXT_ERR, excess_ulps / allow);
 		if(excess_ulps > allow || std::isnan(got))
 			ctx.violate(std::string(cls_prefix) + (r.zone ? ":outside-zone" : ":outside"), fmt("%s returned %.17g but the curve takes the value %.17g inside the interval (%.3g ulp of scale %.3g beyond the reported extremum)", what, got, is_min ? r.fmin : r.fmax, excess_ulps, sc) + where(o));
 		// attainment: the reported extremum is a value the curve takes (at an end or a knot inside)
 		double best = INFINITY;
 		for(double v : r.attain)
-			best = std::min(best, ulps(v, got, sc));
+			best = std::min(best, std::fabs(v - got) <= r.grid_slack ? 0.0 : ulps(v, got, sc));
 		if(best > allow)
 		{	// Inside the tabulated domain every piece is monotone, so the extremum is attained at a limit or at a knot inside; for
 			// pieces in the extrapolation zone reference() has added the refined interior extrema to the attainment set.
